@@ -8,12 +8,12 @@ cd "$WT" || exit 2
 git diff -- pyjelly > /tmp/seed.patch
 [ -s /tmp/seed.patch ] || cp patch.diff /tmp/seed.patch
 echo "--- patch: $(git diff --stat -- pyjelly | tail -1)"
-T=$(PYTHONPATH="$WT" /venv/bin/python -m pytest -q -p no:cacheprovider --timeout=900 2>&1 | tail -1); git checkout -- tests/integration_tests/test_examples/temp 2>/dev/null
+T=$(PYTHONPATH="$WT" /venv/bin/python -m pytest -q -p no:cacheprovider --timeout=900 --ignore=demo.py 2>&1 | tail -1); git checkout -- tests/integration_tests/test_examples/temp 2>/dev/null
 echo "--- tests with change: $T"
 PYTHONPATH="$WT" /venv/bin/python demo.py >/dev/null 2>&1; echo "--- demo with change: exit $?"
-git stash -q -- pyjelly
+git apply -R /tmp/seed.patch
 PYTHONPATH="$WT" /venv/bin/python demo.py >/dev/null 2>&1; echo "--- demo without change: exit $?"
-git stash pop -q
+git apply /tmp/seed.patch
 cd /verif
 git -C /repo apply /tmp/seed.patch || { echo "patch does not apply to /repo"; exit 2; }
 for P in "$@"; do
